@@ -17,7 +17,11 @@ RULE = ('one case = one generated program (1..4 DEF FN definitions with 0..4 par
         'letter ranges before the DEF, between DEF and first call and between calls, assignments and nested/failing '
         'calls, run once as a program under ON ERROR and once statement by statement from direct mode without error '
         'trap (and with CLEAR); there ALL four typed variables of every involved letter are dumped after every '
-        'statement; non-trivial = the program contains at least one FN call; distinct = distinct program text')
+        'statement; storage histories: string/numeric parameters named like caller variables, arguments that are '
+        'other variables holding the SAME text/value (or the variable itself, temporaries), the caller variable '
+        'optionally a FIELD variable, snapshots of the stored bytes (PEEK at VARPTR) around every finishing or failing '
+        'call, then MID$=/LSET/RSET on the argument variable and GET of another record; '
+        'non-trivial = the program contains at least one FN call; distinct = distinct program text')
 EXPLANATION = ('theorems (PcbV.Props.C20 over PcbV.Model.UserFn on the C10 heap model): fn_frame_framed / fn_frame for every '
                'outcome with collections anywhere inside framed bodies, the framed class (gc, alloc, read, fail, bind), '
                'params_bound_during_body, arg_entry_is_converted_value, result_is_body_value, recursion_oom with '
@@ -28,7 +32,9 @@ EXPLANATION = ('theorems (PcbV.Props.C20 over PcbV.Model.UserFn on the C10 heap 
                'error number and the complete variable dump after every statement, also for richer bodies (LEFT$, MID$, '
                'SPACE$, STRING$, LEN, -, conversions) in small string spaces (CLEAR ,n) where collections happen inside '
                'bodies; DEFtype histories (names completed at the time of USE) against model and reference; D17 program '
-               'over the critical CLEAR sizes; DEFtype-after-DEF cases; leak probe CLEAR:PRINT FRE("") '
+               'over the critical CLEAR sizes; DEFtype-after-DEF cases; storage oracle: descriptor bytes of every tracked '
+               'variable equal before and after the call(s), FIELD variable still follows GET, in-place edits of the '
+               'argument never reach the caller variable; leak probe CLEAR:PRINT FRE("") '
                'and no String left in temp_values at the end')
 TRUSTED_BASE = ['model PcbV.Model.UserFn is a hand transcription of userfunctions.py UserFunction.evaluate/_evaluate, '
                 'UserFunctionManager.define/get and DataSegment.complete_name/deftype_ '
@@ -136,6 +142,26 @@ def stmt_text(st):
         return 'DEF FN%s%s=%s' % (st[1], '(%s)' % ','.join(st[2]) if st[2] else '', to_basic(st[3]))
     if st[0] == 'CLEAR':
         return 'CLEAR'
+    if st[0] == 'MID':
+        return 'MID$(%s,%d)=%s' % (st[1], st[2], to_basic(st[3]))
+    if st[0] in ('LSET', 'RSET'):
+        return '%s %s=%s' % (st[0], st[1], to_basic(st[2]))
+    if st[0] == 'FS':
+        # a random-access file whose record is one FIELD variable; records 1..n written
+        text = 'OPEN "R",#2,"F.DAT",%d:FIELD #2,%d AS %s' % (st[2], st[2], st[1])
+        for i, t in enumerate(st[3]):
+            text += ':LSET %s="%s":PUT #2,%d' % (st[1], t, i + 1)
+        return text
+    if st[0] == 'GET':
+        return 'GET #2,%d' % st[1]
+    if st[0] == 'S':
+        # snapshot of the stored bytes of the variables (string descriptor: length + address; number: value bytes)
+        parts = ['PRINT#1,"(";']
+        for name in st[1]:
+            nb = {'$': 3, '%': 2, '!': 4, '#': 8}[name[-1]]
+            parts.append('V=VARPTR(%s):PRINT#1,%s;' % (name, ';'.join(['PEEK(V)'] + ['PEEK(V+%d)' % i for i in range(1, nb)])))
+        parts.append('PRINT#1,")"')
+        return ':'.join(parts)
     raise ValueError(st[0])
 
 
@@ -337,6 +363,32 @@ class Ref(object):
                 return ('k',)
             if st[0] == 'CLEAR':
                 self.fns, self.dt, self.env = {}, {}, {}
+                return ('k',)
+            if st[0] == 'S':
+                return ('d', None)
+            if st[0] == 'FS':
+                w = st[2]
+                self.field = complete(self.dt, st[1])
+                self.recs = dict((i + 1, t.ljust(w)[:w]) for i, t in enumerate(st[3]))
+                self.env[self.field] = self.recs[len(st[3])]
+                return ('k',)
+            if st[0] == 'GET':
+                self.env[self.field] = self.recs[st[1]]
+                return ('k',)
+            if st[0] in ('MID', 'LSET', 'RSET'):
+                name = complete(self.dt, st[1])
+                new = self.ev(st[-1])
+                old = self.get(name)
+                if not isinstance(new, str) or not isinstance(old, str):
+                    raise BErr(13)
+                if st[0] == 'MID':
+                    if not 1 <= st[2] <= len(old):
+                        raise BErr(5)
+                    k = st[2] - 1
+                    new = new[:len(old) - k]
+                    self.env[name] = old[:k] + new + old[k + len(new):]
+                elif old:
+                    self.env[name] = new.ljust(len(old))[:len(old)] if st[0] == 'LSET' else new[:len(old)].rjust(len(old))
                 return ('k',)
             name = complete(self.dt, st[1])
             v = convert(ty(name), self.ev(st[2]))
@@ -586,8 +638,11 @@ def parse_output(out, pool):
                 for name, p in zip(pool, parts):
                     dump[name] = p if name[-1] == '$' else parse_num(p)
         me = re.search(r'@E\s*(\d+)', head)
+        ms = re.match(r'^\(([\d\s]*)\)$', head.strip())
         if me:
             outcome = ('e', int(me.group(1)))
+        elif ms:
+            outcome = ('d', tuple(int(x) for x in ms.group(1).split()))
         else:
             mv = re.search(r'\[(.*)\]', head)
             if mv is None:
@@ -610,6 +665,8 @@ def show_outcome(o):
         return 's' + (hexname(o[1]) or '-')
     if o[0] == 'e':
         return 'e%d' % o[1]
+    if o[0] == 'd':
+        return 'd%s' % ('.'.join(map(str, o[1])) if o[1] is not None else '')
     return o[0] if o[0] == 'k' else '?%r' % (o[1],)
 
 
@@ -744,17 +801,42 @@ def check_case(ctx, session, case, modelled):
     impl_parts = []
     prev = {n: default(n) for n in pool}
     ok = True
+    snap, snap_clean = None, False
     if len(got) != len(stmts):
         ctx.fail('output-shape', case, 'expected %d statement blocks, got %d: %r\nprogram:\n%s'
                  % (len(stmts), len(got), out, '\n'.join(lines)))
         return None, None
     for k, (st, (outcome, dump)) in enumerate(zip(stmts, got)):
-        target = complete(ref.dt, st[1]) if st[0] == 'L' else None
+        target = complete(ref.dt, st[1]) if st[0] in ('L', 'MID', 'LSET', 'RSET', 'FS') else None
+        if st[0] == 'GET':
+            target = getattr(ref, 'field', None)
         exp = ref.stmt(st)
+        if st[0] == 'S':
+            # 0. STORAGE: across DEF FN calls (finished or failed; nothing else in between, no collection in this
+            #    memory) the stored bytes of every variable - string descriptors (length, address) and numeric
+            #    value bytes - are what they were: the restore puts back the saved descriptor itself
+            exp = outcome if outcome[0] == 'd' else ('d', None)
+            if outcome[0] == 'd' and snap is not None and snap_clean and outcome[1] != snap:
+                names = []
+                pos = 0
+                for nm in st[1]:
+                    nb = {'$': 3, '%': 2, '!': 4, '#': 8}[nm[-1]]
+                    if outcome[1][pos:pos + nb] != snap[pos:pos + nb]:
+                        names.append(nm)
+                    pos += nb
+                ctx.fail('storage:descriptor-changed:%s' % ','.join(sorted(set(n[-1] for n in names))), case,
+                         'statement %d: the stored bytes of %s changed across the DEF FN call(s) since the previous '
+                         'snapshot: before %s after %s\nprogram:\n%s' % (k, names, snap, outcome[1], '\n'.join(lines)))
+                ok = False
+            snap = outcome[1] if outcome[0] == 'd' else None
+            snap_clean = True
+        elif st[0] != 'P':
+            snap_clean = False
         expdump = {n: ref.get(n) for n in pool}
         impl_parts.append('%s/%s' % (show_outcome(outcome), show_dump(dump, pool)))
         stext = stmt_text(st)
-        ctx.count('stmt:' + {'P': 'print', 'L': 'let', 'T': 'deftype', 'D': 'def-fn', 'CLEAR': 'clear'}[st[0]])
+        ctx.count('stmt:' + {'P': 'print', 'L': 'let', 'T': 'deftype', 'D': 'def-fn', 'CLEAR': 'clear', 'S': 'snapshot',
+                             'MID': 'mid$=', 'LSET': 'lset', 'RSET': 'rset', 'FS': 'field', 'GET': 'get'}[st[0]])
         if outcome[0] == 'e':
             ctx.count('err:' + ERRNAMES.get(outcome[1], str(outcome[1])))
         else:
@@ -1153,6 +1235,121 @@ def small_memory_clear(session, lines, slack):
     return free
 
 
+# ---------------------------------------------------------------------------------------------
+# storage histories: the caller's variable is restored as a DESCRIPTOR, not only as a value
+
+class StoreGen(object):
+    """string (and numeric) parameters named like caller variables; arguments that are other variables holding
+    the SAME text/value as the caller's variable (or the variable itself, other variables, temporaries); the
+    caller's variable optionally a FIELD variable of an open random file; snapshots of the stored bytes around
+    every call (finishing and failing); afterwards in-place edits (MID$=, LSET, RSET) of the argument variable
+    and GET of another record"""
+
+    POOL = ['X$', 'Y$', 'B$', 'C$', 'X!', 'N!']
+
+    def __init__(self, rng):
+        self.rng = rng
+        self.hist = []
+        self.text = {}
+
+    def split(self, t):
+        r = self.rng
+        k = r.randrange(len(t) + 1)
+        return ['+', ['s', t[:k]], ['s', t[k:]]]
+
+    def let(self, name, t):
+        self.hist.append(['L', name, self.split(t)])
+        self.text[name] = t
+
+    def history(self):
+        r = self.rng
+        h = self.hist
+        field = r.random() < 0.4
+        words = ['first', 'second', 'abc', 'value', 'qrstu', 'mn', 'xyzw']
+        if field:
+            w = r.choice([5, 6, 8])
+            recs = r.sample(words, r.choice([2, 3]))
+            h.append(['FS', 'X$', w, recs])
+            self.recs = [t.ljust(w)[:w] for t in recs]
+        # functions: parameters named like the caller's variables
+        fns = []
+        shapes = [(['X$'], ['+', ['len', ['v', 'X$']], ['n', 'i', 4]], 'n'),
+                  (['X$'], ['+', ['v', 'X$'], ['s', '!']], '$'),
+                  (['X$'], ['+', ['len', ['v', 'X$']], ['fail']], 'n'),
+                  (['X$', 'Y$'], ['+', ['v', 'Y$'], ['v', 'X$']], '$'),
+                  (['Y$', 'X$'], ['len', ['+', ['v', 'Y$'], ['v', 'X$']]], 'n'),
+                  (['X!', 'X$'], ['+', ['v', 'X!'], ['len', ['v', 'X$']]], 'n'),
+                  (['X$', 'X!'], ['+', ['fail'], ['v', 'X!']], 'n'),
+                  (['Y$'], ['v', 'Y$'], '$'),
+                  (['X!'], ['+', ['v', 'X!'], ['v', 'X!']], 'n')]
+        for i in range(r.choice([1, 2, 2, 3])):
+            ps, body, kind = r.choice(shapes)
+            name = 'ABC'[i] + ('$' if kind == '$' else '!')
+            h.append(['D', name, list(ps), body])
+            fns.append((name, ps))
+        # the caller's variables, and argument variables holding the same text / value
+        if field:
+            h.append(['GET', 1])
+            self.text['X$'] = self.recs[0]
+            h.append(['L', 'B$', ['v', 'X$']])
+            self.text['B$'] = self.recs[0]
+        else:
+            t = r.choice(words)
+            self.let('X$', t)
+            self.let('B$', t if r.random() < 0.75 else r.choice(words))
+        t = r.choice(words)
+        self.let('Y$', t)
+        self.let('C$', t if r.random() < 0.75 else r.choice(words))
+        q = r.choice([4, 10, -6, 28])
+        h.append(['L', 'X!', ['n', 's', q]])
+        h.append(['L', 'N!', ['n', 's', q if r.random() < 0.75 else 12]])
+        tracked = ['X$', 'Y$', 'B$', 'X!']
+        for _ in range(r.choice([2, 3, 4])):
+            name, ps = r.choice(fns)
+            args = []
+            used = []
+            for p in ps:
+                c = r.random()
+                if p[-1] == '$':
+                    same = 'B$' if p == 'X$' else 'C$'
+                    if c < 0.6:
+                        a = ['v', same]
+                    elif c < 0.7:
+                        a = ['v', p]
+                    elif c < 0.85:
+                        a = ['v', r.choice(['B$', 'C$', 'X$', 'Y$'])]
+                    else:
+                        a = self.split(self.text.get(p, 'abc')) if r.random() < 0.5 else ['s', r.choice(words)]
+                    if a[0] == 'v':
+                        used.append(a[1])
+                else:
+                    a = ['v', 'N!'] if c < 0.6 else (['v', 'X!'] if c < 0.75 else ['n', 's', r.choice([4, 10, 12])])
+                args.append(a)
+            h.append(['S', tracked])
+            h.append(['P', ['call', name, args]])
+            h.append(['S', tracked])
+            # in-place edits of the argument variable must not reach the caller's variable
+            for v in used:
+                if v in ('B$', 'C$') and r.random() < 0.7 and len(self.text.get(v) or '') >= 2:
+                    c = r.random()
+                    if c < 0.5:
+                        h.append(['MID', v, r.choice([1, 2]), ['s', r.choice(['Q', 'ZZ'])]])
+                    elif c < 0.75:
+                        h.append(['LSET', v, ['s', r.choice(['k', 'uv'])]])
+                    else:
+                        h.append(['RSET', v, ['s', r.choice(['k', 'uv'])]])
+                    self.text[v] = None
+            if field and r.random() < 0.8:
+                n = r.randrange(len(self.recs)) + 1
+                h.append(['GET', n])
+                self.text['X$'] = self.recs[n - 1]
+            if r.random() < 0.6:
+                # equal text again
+                h.append(['L', 'B$', ['v', 'X$']])
+                self.text['B$'] = self.text.get('X$')
+        return h
+
+
 def as_case(label, fns, stmts):
     return {'label': label, 'hist': lower(fns, stmts), 'pool': POOL}
 
@@ -1184,6 +1381,7 @@ def run(ctx):
     # --- A. modelled programs, default memory: Lean correspondence + reference oracle --------------------
     n_model = 220 if quick else 2000
     n_hist = 160 if quick else 1500
+    n_store = 70 if quick else 700
     session = Box()
     cases, impls, plines = [], [], []
 
@@ -1225,6 +1423,13 @@ def run(ctx):
                 check_case(ctx, session, case, False)
             else:
                 modelled(case)
+        # --- E. storage histories: descriptors, FIELD variables, in-place edits of the argument (oracle only) -
+        for k in range(n_store):
+            g = StoreGen(rng)
+            case = {'label': 'storage-history', 'hist': g.history(), 'pool': StoreGen.POOL}
+            ctx.count('storage-histories')
+            ctx.count('storage-histories:field' if case['hist'][0][0] == 'FS' else 'storage-histories:plain')
+            check_case(ctx, session, case, False)
     finally:
         session.close()
     ctx.log('%d modelled programs run' % len(cases))
